@@ -49,3 +49,21 @@ Theorem C02_concurrent_first_reads_all_upgrade : forall srt0 es o,
   wait_lin (with_srt o (srt_run srt0 es)) = LinStrongNeeded.
 Proof. exact concurrent_first_reads_all_upgrade. Qed.
 Print Assumptions C02_concurrent_first_reads_all_upgrade.
+
+Theorem C02_no_double_apply : forall local remote,
+  raft_future_ok local -> (call_entries local remote <= 1)%N.
+Proof. exact no_double_apply. Qed.
+Print Assumptions C02_no_double_apply.
+
+Theorem C02_leadership_lost_is_unknown_and_stays_here : forall remote a,
+  let local := {| at_leader := true; at_ready := true; at_end := ALeadershipLost; at_appended := a |} in
+  call_class local remote = WUnknown /\ forwards (attempt_class local) = false.
+Proof. exact leadership_lost_is_unknown_and_stays_here. Qed.
+Print Assumptions C02_leadership_lost_is_unknown_and_stays_here.
+
+Theorem C02_acked_call_has_one_entry : forall local remote,
+  raft_future_ok local ->
+  (at_end local = AOk -> at_appended local = true) -> (at_end remote = AOk -> at_appended remote = true) ->
+  call_class local remote = WAcked -> call_entries local remote = 1%N.
+Proof. exact acked_call_has_one_entry. Qed.
+Print Assumptions C02_acked_call_has_one_entry.
